@@ -26,6 +26,12 @@ def steps(token, key, frame, bad_token, bad_key):
         "auth_good": ("auth", token, key, "ok", "ok"),
         "auth_bad": ("auth", bad_token, bad_key, "ok", "ok"),
         "auth_silent": ("auth", token, key, "silent", "ok"),
+        # cancellation by the caller while the call waits in a read (times chosen inside read waits in every
+        # situation the history can be in; the post-authentication sleep is not a modelled cancellation point)
+        "send_cancel_1": ("sendc", frame, 1500, "ok", "silent"),
+        "send_cancel_2": ("sendc", frame, 3500, "ok", "silent"),
+        "send_cancel_hs": ("sendc", frame, 50, "silent", "ok"),
+        "auth_cancel": ("authc", token, key, 2500, "silent", "ok"),
         "clock_13h": ("adv", 13 * 3600 * 1000),
         "clock_12h1s": ("adv", 12 * 3600 * 1000 + 1000),
         "clock_25h": ("adv", 25 * 3600 * 1000),
@@ -149,7 +155,12 @@ def run(ctx):
         for pre in (["send"], [], ["auth_good"], ["send_silent"]):
             run_one(ctx, "expiry_jumps", rng, pre + [j, "send"], with_life=False)
             run_one(ctx, "expiry_jumps", rng, pre + [j, "send", j, "send"], with_life=False)
-    alphabet = alphabet + jumps
+    cancels = ["send_cancel_1", "send_cancel_2", "send_cancel_hs", "auth_cancel"]
+    for c in cancels:
+        for pre in ([], ["send"], ["send_close"], ["clock_13h"], ["auth_bad"]):
+            for post in (["send"], ["send", "send"], ["auth_good", "send"]):
+                run_one(ctx, "cancel", rng, pre + [c] + post, with_life=False)
+    alphabet = alphabet + jumps + cancels
     for _ in range(150 if not thorough else 3000):
         names = [rng.choice(alphabet) for _ in range(rng.randrange(3, 13 if not thorough else 31))]
         run_one(ctx, "random", rng, names, with_life=rng.random() < 0.4)
